@@ -30,7 +30,26 @@ def pick_count(rng, budget):
     return rng.choice(c)
 
 
+def gen_growth(rng, cid):
+    """one producer whose index ring has already advanced (blocks consumed earlier) builds a backlog of more than
+    1024 outstanding elements (32 blocks of 32): the producer's block index has to grow while it is wrapped"""
+    k = rng.choice([32, 40, 64, 100, 333])
+    n = rng.choice([1100, 1500, 2100, 3000])
+    threads = [f'mixprod {k} {n}']
+    for _ in range(rng.weighted([(0, 3), (1, 2), (3, 1)])):
+        threads.append('cons')
+    if rng.below(3) == 0:
+        threads.append(f'prod {rng.choice([5, 33, 100])}')
+    for i in range(len(threads) - 1, 0, -1):
+        j = rng.below(i + 1)
+        threads[i], threads[j] = threads[j], threads[i]
+    hdr = f'case {cid} mode=0 init={rng.choice([0, 32, 128])} pre=0 lim=0 oe={rng.below(2)} jit={rng.below(1 << 30) if rng.below(2) else 0}'
+    return hdr + '\n' + '\n'.join(f'thread {i}: {t} ;' for i, t in enumerate(threads)) + '\nendcase'
+
+
 def gen(rng, cid, big=False):
+    if rng.below(12) == 0:
+        return gen_growth(rng, cid)
     mode = rng.below(2)
     nprod = 1 + rng.below(4)
     ncons = rng.weighted([(0, 1), (1, 3), (2, 3), (3, 2), (4, 1)])
